@@ -36,9 +36,10 @@ type Proxy struct {
 }
 
 type command struct {
-	id  string
-	rpc *goatorepo.Rpc
-	err error
+	id     string
+	rpc    *goatorepo.Rpc
+	err    error
+	client *proxyClient // the connection reporting err
 }
 
 type proxyClient struct {
@@ -113,7 +114,11 @@ func (p *Proxy) serveClients(ctx context.Context) {
 				p.forwardRpc(cmd.id, cmd.rpc)
 			} else if cmd.err != nil {
 				p.mutex.Lock()
-				delete(p.clients, cmd.id)
+				// Only forget the connection that failed: a newer connection
+				// may have been attached under the same name meanwhile.
+				if cur, ok := p.clients[cmd.id]; ok && cur == cmd.client {
+					delete(p.clients, cmd.id)
+				}
 				p.mutex.Unlock()
 				if p.clientDisconnect != nil {
 					p.clientDisconnect(cmd.id, cmd.err)
@@ -205,7 +210,7 @@ func (c *proxyClient) readLoop(ctx context.Context) error {
 // rather than block forever.
 func (c *proxyClient) report(ctx context.Context, err error) {
 	select {
-	case c.toServer <- command{id: c.id, err: err}:
+	case c.toServer <- command{id: c.id, err: err, client: c}:
 	case <-ctx.Done():
 	}
 }
